@@ -7,6 +7,14 @@ props = [json.loads(l) for l in open(os.path.join(HERE, "properties.jsonl"))]
 
 # id -> (level, technique, level text, level note, design ref)
 CLAIMS = {
+    "C18": ("model_checking",
+            "TLC executes the BDOS stub (bytes read from the code) in the Z80 TLA+ specification + Run events of the real mini CP/M machine validated by TLC with a console contract",
+            "TLC runs the BDOS stub in the specification exhaustively over short strings / byte values and checks the contract; "
+            "random programs of function-2/9 calls (strings up to 4096 bytes, every value except '$', page crossings) run on "
+            "the real CPU + tinycpm Memory/IO, each Run validated by TLC Step by Step and the captured console bytes, warnings, "
+            "final PC/SP compared by TLC with the contract.",
+            "Strings sampled (exhaustive only for length <= 3 on the specification). internal/tinycpm is compiled from a copy taken at check time.",
+            "DESIGN.md section 3 C18"),
     "C17": ("other",
             "TLA+ layout specification of the zexdoc/zexall images evaluated by TLC on the image bytes and the dumped Go tables; pinned digests",
             "TLC evaluates ZexTables!Result on the bytes of both canonical images and on the Go tables dumped from a copy of "
